@@ -113,9 +113,11 @@ impl Length for StubFft { fn len(&self) -> usize { self.len } }
 impl Direction for StubFft { fn fft_direction(&self) -> FftDirection { self.dir } }
 impl StubFft {
     fn garbage(s: &mut [Complex<f64>], salt: f64) { for (i, x) in s.iter_mut().enumerate() { *x = Complex::new(1.0e6 + salt + i as f64, -7.5); } }
-    fn apply(chunk: &mut [Complex<f64>]) { // deterministic per-chunk function: reverse and add index
+    fn apply(chunk: &mut [Complex<f64>]) { // deterministic per-chunk function in which every output depends on every input (like a DFT)
+        let mut sum = Complex::new(0.0, 0.0);
+        for x in chunk.iter() { sum = sum + *x; }
         chunk.reverse();
-        for (i, x) in chunk.iter_mut().enumerate() { *x = *x + Complex::new(i as f64, 1.0); }
+        for (i, x) in chunk.iter_mut().enumerate() { *x = *x * 0.5 + sum * 0.25 + Complex::new(i as f64, 1.0); }
     }
 }
 impl Fft<f64> for StubFft {
